@@ -26,25 +26,26 @@ from harness import _C24_lib as L
 
 PROPERTY = "C24"
 
-assert (L.N_KINDS, L.N_LITERALS, L.N_RAISERS, L.N_ASSERTIONS, L.N_SUITE) == (39, 47, 9, 34, 14)
+assert (L.N_KINDS, L.N_LITERALS, L.N_RAISERS, L.N_ASSERTIONS, L.N_SUITE) == (40, 47, 9, 36, 14)
 
 
 def h_kind(k: int, tail: int, amode: int, black: bool, level: int) -> bool:
     """
-    pre: 0 <= k < 39 and 0 <= tail <= 2 and 0 <= amode <= 2 and 0 <= level <= 2
+    pre: 0 <= k < 40 and 0 <= tail <= 3 and 0 <= amode <= 2 and 0 <= level <= 2
     post: _
     """
     # One statement of kind k (_C24_lib.KINDS: constructor / function / method calls with positional, keyword,
     # *, ** arguments reading earlier variables, field reads, collection literals holding references, enum and
     # module constants, callables) after the producers of the variables it reads.  tail 0: its variable is unused
-    # (exported as a bare expression); 1: a call reads it; 2: another binding statement follows, then the call.
+    # (exported as a bare expression); 1: a call reads it; 2: another binding statement follows, then the call;
+    # 3: another binding statement and a call reading THAT follow (gap in the exported variable numbers).
     # amode 0: exported without assertions; 1: with the assertions Pynguin generates; 2: with stale assertions.
     return reach(L.untraced(L.run_kind, k, tail, amode, black, level))
 
 
 def h_pair(k1: int, k2: int, amode: int, level: int) -> bool:
     """
-    pre: 0 <= k1 < 39 and 0 <= k2 < 39 and 0 <= amode <= 1 and 0 <= level <= 2
+    pre: 0 <= k1 < 40 and 0 <= k2 < 40 and 0 <= amode <= 1 and 0 <= level <= 2
     post: _
     """
     # two statement kinds in one test case (up to 7 statements); the second reuses the first one's variables
@@ -65,7 +66,7 @@ def h_literal(lit: int, use: int, amode: int, black: bool) -> bool:
 
 def h_noassert(k: int, tail: int, amode: int) -> bool:
     """
-    pre: 0 <= k < 39 and 0 <= tail <= 2 and 0 <= amode <= 1
+    pre: 0 <= k < 40 and 0 <= tail <= 3 and 0 <= amode <= 1
     post: _
     """
     # the seeding run has assertion generation NONE (create_assertions=False): the statements of a file
@@ -85,7 +86,7 @@ def h_raise(r: int, no_xfail: bool, amode: int, seeded: bool, black: bool) -> bo
 
 def h_assertion(a: int, pos: int, black: bool, level: int) -> bool:
     """
-    pre: 0 <= a < 34 and 0 <= pos <= 1 and 0 <= level <= 2
+    pre: 0 <= a < 36 and 0 <= pos <= 1 and 0 <= level <= 2
     post: _
     """
     # one hand-made assertion (_C24_lib._assertion_table: object assertions on int / str / bytes / bool / None /
@@ -124,7 +125,7 @@ def h_factory(part: int, seed: int, inserts: int, amode: int, level: int) -> boo
 
 def h_file(k: int, tail: int, amode: int) -> bool:
     """
-    pre: 0 <= k < 39 and 0 <= tail <= 2 and 0 <= amode <= 1
+    pre: 0 <= k < 40 and 0 <= tail <= 3 and 0 <= amode <= 1
     post: _
     """
     # by-catch beyond the per-function comparison: the re-rendered FILE binds every global name its test
@@ -156,11 +157,11 @@ META = {
                   "pynguin.assertion.assertion_to_ast.assertion_to_cst", "pynguin.testcase.testcase.TestCase.remove_unused_variables",
                   "pynguin.assertion.assertiontraceobserver.RemoteAssertionTraceObserver", "AssertionGenerator._add_assertions_for",
                   "pynguin.testcase.literalgen.literal_to_cst", "pynguin.testcase.testfactory.TestFactory.insert_random_statement"],
-    "bounds": {"statement_kinds": "39 kinds (_C24_lib.KINDS) after <= 3 producer statements, followed by nothing / a reading call / a "
-                                  "binding statement and a reading call; thorough: all ordered pairs of kinds in one test case (<= 7 statements)",
+    "bounds": {"statement_kinds": "40 kinds (_C24_lib.KINDS) after <= 3 producer statements, followed by nothing / a reading call / a "
+                                  "binding statement and a call reading the kind's or that statement's variable; thorough: all ordered pairs of kinds in one test case (<= 7 statements)",
                "literals": "47 values (_C24_lib.LITERALS), unused / read by keyword / read positionally",
                "raising": "9 raising last statements x no_xfail x seeded file x black",
-               "assertions": "none | generated by the real observer | generated with allow_stale_assertions | one of 34 hand-made assertions "
+               "assertions": "none | generated by the real observer | generated with allow_stale_assertions | one of 36 hand-made assertions "
                              "on the binding statement or the next binding statement",
                "suites": "two test cases from 14 kinds (quick: first test from 8 kinds)",
                "factory": "TestFactory products for seeds 0..29 (thorough 0..149) x 1..3 insertions",
@@ -187,7 +188,7 @@ def obligations(tier: str):
     quick = tier == "quick"
     T = 240 if quick else 1200
     obs = [
-        Chx("kind", h_kind, timeout=T, split={"tail": [0, 1, 2], "black": [False, True]}),
+        Chx("kind", h_kind, timeout=T, split={"tail": [0, 1, 2, 3], "black": [False, True]}),
         Chx("literal", h_literal, timeout=T, split={"use": [0, 1, 2]}),
         Chx("noassert", h_noassert, timeout=T),
         Chx("raise", h_raise, timeout=T),
@@ -197,5 +198,5 @@ def obligations(tier: str):
         Chx("file", h_file, timeout=T),
     ]
     if not quick:
-        obs.append(Chx("pair", h_pair, timeout=T, split={"k1": list(range(39))}))
+        obs.append(Chx("pair", h_pair, timeout=T, split={"k1": list(range(40))}))
     return obs
